@@ -31,7 +31,9 @@ CLASSES = (['allow', 'deny', 'unknown', 'emptyset', 'scope',
             # enforce_scope OFF: a scope mismatch is only a warning
             'softscope', 'eo-softscope', 'softscope-deny',
             # a name the policy FILE defines but the service never registered
-            'fileonly-allow', 'fileonly-deny'] +
+            'fileonly-allow', 'fileonly-deny',
+            # asked for (and unknown) BEFORE the service registered it
+            'late-allow', 'late-deny'] +
            ['ret-' + k for k in RET] +
            # a check OBJECT needs no named rules: empty rule store
            ['eo-allow', 'eo-deny', 'eo-scope', 'eo-ret-str'] +
@@ -79,7 +81,8 @@ def plan(tier, seed):
 def expected_class(cls):
     if cls.startswith('eo-'):
         cls = cls[3:]
-    if cls in ('allow', 'pw-allow', 'softscope', 'fileonly-allow') or cls in (
+    if cls in ('allow', 'pw-allow', 'softscope', 'fileonly-allow',
+               'late-allow') or cls in (
             'ret-true', 'ret-one', 'ret-str', 'ret-tuple'):
         return 'allow'
     if cls in ('scope', 'scope-deny'):
@@ -142,6 +145,16 @@ def build(P, parse_rule, cls):
     if cls != 'emptyset' and not cls.startswith('eo-'):
         enf.register_defaults(defaults)
     enf.load_rules()
+    if cls.startswith('late-'):
+        name = 'svc:' + cls
+        for fn in (enf.enforce, enf.authorize):
+            for dr in (False, True):
+                try:
+                    fn(name, {}, {'roles': ['r']}, do_raise=dr)
+                except Exception:
+                    pass
+        enf.register_default(P.RuleDefault(
+            name, 'role:r' if cls == 'late-allow' else 'role:nope'))
     return w, enf
 
 
@@ -162,6 +175,7 @@ def rule_for(P, parse_rule, cls, how):
     text = {'allow': 'role:r', 'deny': 'role:nope', 'scope': '@',
             'scope-deny': 'role:nope', 'softscope': '@',
             'fileonly-allow': 'vret:true', 'fileonly-deny': 'vret:false',
+            'late-allow': 'role:r', 'late-deny': 'role:nope',
             'softscope-deny': 'role:nope',
             'pw-allow': "'secret':%(password)s and 'tok':%(auth_token)s"
             }.get(cls, 'vret:' + cls[4:])
